@@ -24,6 +24,9 @@
 (*     exactly the keys designated by the documented key order.            *)
 (* C14 supply lanes: the standard events are exactly the pushed items,     *)
 (*     once each, in push order.                                           *)
+(*     (demand lanes, which no property of the list describes: an event    *)
+(*     carries a value on_cue computed since the last event - or repeats   *)
+(*     that event; the sync clauses and W apply to them as to any lane.)   *)
 (* C03 per sync request by remote id: zero or more sync events then one    *)
 (*     synced, all labelled id; never for an id without a request; every   *)
 (*     sync event carries a value the lane (the key) held at or after the  *)
@@ -62,7 +65,7 @@ LPInit(kind, nk, ids, en, case, kf0) ==
      cur |-> 0,                \* the value the lane holds (demand: the value last computed)
      hist |-> << 0 >>,         \* values held from the one matched by the last event on, oldest first
      changed |-> FALSE, hasEv |-> FALSE, lastEv |-> 0,
-     owed |-> FALSE, cadm |-> {},      \* demand: a cue not yet answered; values computed since it
+     owed |-> FALSE, cadm |-> {},      \* demand: a cue not yet answered; values computed since the last event (and its value)
      \* supply lanes: items pushed and not yet emitted
      fifo |-> << >>,
      \* map lanes: the lane and the consumer "L" that folds every standard event
@@ -99,8 +102,7 @@ LPPush(p, v, mod) == LPModLaw([p EXCEPT !.fifo = Append(@, v)], TRUE, mod)
 
 \* a demand lane is cued and its on_cue handler computes v
 LPCue(p, v, mod) ==
-    LPModLaw([p EXCEPT !.owed = TRUE, !.cur = v, !.cadm = (IF p.owed THEN @ ELSE {}) \cup {v}, !.adm = LPAdmAdd(p, v)],
-             TRUE, mod)
+    LPModLaw([p EXCEPT !.owed = TRUE, !.cur = v, !.cadm = @ \cup {v}, !.adm = LPAdmAdd(p, v)], TRUE, mod)
 
 \* remote id asks to sync
 LPSync(p, id, mod) ==
@@ -118,7 +120,7 @@ LPSync(p, id, mod) ==
 \* ... of a demand lane: the request triggers on_cue, which computes v
 LPDSync(p, id, v, mod) ==
     LET q == LPSync(p, id, mod) IN
-    [q EXCEPT !.cur = v, !.adm = LPAdmAdd(q, v), !.cadm = IF q.owed THEN @ \cup {v} ELSE @]
+    [q EXCEPT !.cur = v, !.adm = LPAdmAdd(q, v), !.cadm = @ \cup {v}]
 
 \* map lanes: key k takes value v (0: its entry is removed) for every open window
 LPMadmAdd(p, S, v) ==
@@ -173,9 +175,10 @@ LPValFrame(p, f) ==
         ELSE IF p.kind = "supply" THEN
             IF p.fifo = << >> \/ Head(p.fifo) # f.v THEN LPFail(p, "supply-event-is-not-the-next-pushed-item")
             ELSE [p EXCEPT !.fifo = Tail(@)]
-        ELSE \* demand
-            IF ~p.owed \/ f.v \notin p.cadm THEN LPFail(p, "demand-event-without-cue-or-not-computed-since")
-            ELSE [p EXCEPT !.owed = FALSE, !.cadm = {},
+        ELSE \* demand: a value on_cue computed since the last event (or that event's value again: repetition is tolerated
+             \* as it is for value lanes; demand lanes are stateless, no property of the list says more about their events)
+            IF f.v \notin p.cadm THEN LPFail(p, "demand-event-value-not-computed-since-the-last-event")
+            ELSE [p EXCEPT !.owed = FALSE, !.cadm = {f.v},
                            !.rv = [i \in LPIds(p) |-> IF p.out[i] > 0 THEN f.v ELSE p.rv[i]]]
     ELSE IF f.t = "sync" THEN
         IF LPNoRequest(p, f) THEN LPFail(p, "sync-event-without-request")
